@@ -1052,6 +1052,9 @@ class HTTPResponse(BaseHTTPResponse):
         data = self._raw_read(amt, read1=True)
         if not decode_content or data is None:
             return data
+        if not data and not self._has_decoded_content:
+            # A body without a single byte: nothing to decode or to flush.
+            return data
 
         self._init_decoder()
         while True:
